@@ -385,6 +385,9 @@ func compareALMPDigits(a, b string) int {
 
 	// Fallback for very large numbers that don't fit in uint64
 	// Compare by length first (longer number is larger)
+	// Leading zeros do not change the value but would skew the length comparison.
+	a = strings.TrimLeft(a, "0")
+	b = strings.TrimLeft(b, "0")
 	if len(a) < len(b) {
 		return -1
 	}
